@@ -342,6 +342,9 @@ func retype(v interface{}, h uint64, kinds string, depth int) interface{} {
 				allStr = false
 			}
 		}
+		if len(x) == 0 && depth > 0 && strings.Contains(kinds, "L") && pick(3) == 0 {
+			return []string{} // the empty list, typed
+		}
 		if allStr && strings.Contains(kinds, "L") && pick(3) == 0 {
 			o := make([]string, len(c))
 			for i, e := range c {
@@ -390,6 +393,9 @@ func retypeBelowRoot(v interface{}, h uint64, kinds string) interface{} {
 				if _, ok := e.(string); !ok {
 					allStr = false
 				}
+			}
+			if len(t) == 0 && d > 0 && strings.Contains(kinds, "L") && (h>>33)%2 == 0 {
+				return []string{}
 			}
 			if allStr && strings.Contains(kinds, "L") && (h>>33)%2 == 0 {
 				o := make([]string, len(t))
